@@ -109,21 +109,21 @@ def main(argv=None):
 
     # ---------------------------------------------------------------- lean side
     log = []
-    with leanside.lock():
+    with leanside.lock():                                     # one build at a time touches lean/.lake and Gen/
         st = leanside.prepare(pid, tier, log)
-        # ------------------------------------------------------------ cases
-        rng = random.Random(seed * 1000003 + sum(map(ord, pid)))
-        lines = []
-        corpus = os.path.join(VERIF, "corpus", pid + ".txt")
-        if os.path.exists(corpus):
-            lines += [l.rstrip("\n") for l in open(corpus) if l.strip() and not l.startswith("#")]
-        n_corpus = len(lines)
-        for f in findings:                                    # witnesses of known/fixed findings run every time
-            lines.append(f["witness"])
-        lines += list(mod.gen(rng, tier))
-        outs = run_cases(mod, lines)
-        model_line = getattr(mod, "model_line", lambda l: l)
-        model_outs = leanside.drive(pid, [model_line(l) for l in lines]) if st["model_ok"] else None
+    # ---------------------------------------------------------------- cases
+    rng = random.Random(seed * 1000003 + sum(map(ord, pid)))
+    lines = []
+    corpus = os.path.join(VERIF, "corpus", pid + ".txt")
+    if os.path.exists(corpus):
+        lines += [l.rstrip("\n") for l in open(corpus) if l.strip() and not l.startswith("#")]
+    n_corpus = len(lines)
+    for f in findings:                                        # witnesses of known/fixed findings run every time
+        lines.append(f["witness"])
+    lines += list(mod.gen(rng, tier))
+    outs = run_cases(mod, lines)
+    model_line = getattr(mod, "model_line", lambda l: l)
+    model_outs = leanside.drive(pid, [model_line(l) for l in lines]) if st["model_ok"] else None
     if model_outs is None:
         st["ok"] = False
         st["failures"].append({"kind": "driver", "detail": "model driver did not run"})
